@@ -200,15 +200,15 @@ func runC05(c *Ctx, r *Report) {
 	importObligations(r, func(sub *Report) { checkSearchDepth(c, sub) }, "C01/search-depth", "C05/search-window")
 	r.Rule("C05/fresh-operation", "channel.NewOperation and netconf.NewOperation hand every caller a freshly allocated options object (it carries the per-operation timeout)", 2)
 	checkFreshOperation(c, r, "C05/fresh-operation", []string{"channel", "driver/netconf"})
-	r.Rule("C05/error-classes", "each failure site named by the property wraps the sentinel the property names (timeout / auth / connection / privilege / NETCONF / operation / platform error)", 11)
+	r.Rule("C05/error-classes", "each failure site named by the property wraps the sentinel the property names (timeout / auth / connection / privilege / NETCONF / operation / platform error)", 6)
 	checkErrorClasses(c, r, "C05")
-	r.Rule("C05/loops-cancellable", "every condition-less loop has an exit governed by ctx.Done/ctx.Err, the owner's done channel, the error of a bounded call, a counter bound or a socket read deadline", 12)
+	r.Rule("C05/loops-cancellable", "every condition-less loop has an exit governed by ctx.Done/ctx.Err, the owner's done channel, the error of a bounded call, a counter bound or a socket read deadline", 6)
 	r.Rule("C05/gettimeout-table", "GetTimeout: -1 -> connection-wide, 0 -> MaxTimeout, else -> the argument", 3)
-	r.Rule("C05/deadline-source", "each blocking operation derives its context/timer from the specified timeout and passes that context to every context-taking call below it", 14)
-	r.Rule("C05/timeout-class", "deadline branches return ErrTimeoutError; a failed implicit privilege change returns ErrPrivilegeError", 10)
+	r.Rule("C05/deadline-source", "each blocking operation derives its context/timer from the specified timeout and passes that context to every context-taking call below it", 6)
+	r.Rule("C05/timeout-class", "deadline branches return ErrTimeoutError; a failed implicit privilege change returns ErrPrivilegeError", 5)
 	r.Rule("C05/deadline-chain", "context-bounded readers and workers hand errors on unwrapped or wrapped with %w, so the operation's errors.Is(err, DeadlineExceeded) sees an expired deadline", 1)
 	r.Rule("C05/op-options-applied", "channel.NewOperation and netconf.NewOperation apply the full per-operation option list (the per-operation timeout) in order", 2)
-	r.Rule("C05/opts-forwarded", "every operation of the channel and of the three drivers hands its full per-operation option list (which carries the per-operation timeout) to each option-taking library callee", 14)
+	r.Rule("C05/opts-forwarded", "every operation of the channel and of the three drivers hands its full per-operation option list (which carries the per-operation timeout) to each option-taking library callee", 8)
 	r.Rule("C05/no-read-after-return", "spawner exits only after an unconditional receive of the worker's result; the worker performs no device I/O after sending", 4)
 	r.Rule("C05/closed-result-nil", "a value received from a result channel that its worker may close without sending is nil-checked before use", 1)
 
@@ -799,6 +799,44 @@ func retWrapsOnBlock(b *ssa.BasicBlock, errName string) bool {
 	return false
 }
 
+// resultHelpers: unexported functions of fn's package whose results fn returns as they are (return h(...)).
+func resultHelpers(fn *ssa.Function) []*ssa.Function {
+	var out []*ssa.Function
+	seen := map[*ssa.Function]bool{}
+	allInstrs(fn, func(in ssa.Instruction) {
+		ret, ok := in.(*ssa.Return)
+		if !ok {
+			return
+		}
+		for _, rv := range ret.Results {
+			var call *ssa.Call
+			// results of a function with defers are spilled to cells and loaded for the return
+			if u, isU := rv.(*ssa.UnOp); isU {
+				if a, isA := u.X.(*ssa.Alloc); isA {
+					if v := lastStoreBefore(a, u); v != nil {
+						rv = v
+					}
+				}
+			}
+			switch x := rv.(type) {
+			case *ssa.Extract:
+				call, _ = x.Tuple.(*ssa.Call)
+			case *ssa.Call:
+				call = x
+			}
+			if call == nil {
+				continue
+			}
+			h := call.Call.StaticCallee()
+			if h != nil && !seen[h] && h.Pkg == fn.Pkg && h.Object() != nil && !h.Object().Exported() && len(h.Blocks) > 0 {
+				seen[h] = true
+				out = append(out, h)
+			}
+		}
+	})
+	return out
+}
+
 func checkTimeoutClasses(c *Ctx, r *Report) {
 	rule := "C05/timeout-class"
 	// (a) errors.Is(x, context.DeadlineExceeded) true edge -> ErrTimeoutError
@@ -809,7 +847,13 @@ func checkTimeoutClasses(c *Ctx, r *Report) {
 			continue
 		}
 		ok := false
-		for _, b := range fn.Blocks {
+		// the mapping may live in the operation or in a helper of its package whose results the operation returns
+		var blocks []*ssa.BasicBlock
+		blocks = append(blocks, fn.Blocks...)
+		for _, h := range resultHelpers(fn) {
+			blocks = append(blocks, h.Blocks...)
+		}
+		for _, b := range blocks {
 			cond := ifCond(b)
 			if cond == nil {
 				continue
@@ -898,26 +942,39 @@ func checkTimeoutClasses(c *Ctx, r *Report) {
 			continue
 		}
 		ok := false
-		for _, ci := range staticCallsTo(fn, acq) {
-			errs := errResultsOf(ci.(*ssa.Call))
-			if len(errs) != 1 {
+		// the implicit acquire may be wrapped in a helper of the package whose error the operation returns as it is
+		holders := []*ssa.Function{fn}
+		for _, ci := range callInstrs(fn) {
+			h := ci.Common().StaticCallee()
+			if h == nil || h.Pkg != fn.Pkg || h.Object() == nil || h.Object().Exported() || len(staticCallsTo(h, acq)) == 0 {
 				continue
 			}
-			for _, b := range fn.Blocks {
-				cond := ifCond(b)
-				if cond == nil {
+			if stepErrReturned(c, fn, ci) == "" {
+				holders = append(holders, h)
+			}
+		}
+		for _, holder := range holders {
+			for _, ci := range staticCallsTo(holder, acq) {
+				errs := errResultsOf(ci.(*ssa.Call))
+				if len(errs) != 1 {
 					continue
 				}
-				x, nonNilOnTrue, isNil := nilCheck(cond)
-				if !isNil || x != errs[0] {
-					continue
-				}
-				succ := b.Succs[1]
-				if nonNilOnTrue {
-					succ = b.Succs[0]
-				}
-				if retWrapsOnBlock(succ, "ErrPrivilegeError") {
-					ok = true
+				for _, b := range holder.Blocks {
+					cond := ifCond(b)
+					if cond == nil {
+						continue
+					}
+					x, nonNilOnTrue, isNil := nilCheck(cond)
+					if !isNil || x != errs[0] {
+						continue
+					}
+					succ := b.Succs[1]
+					if nonNilOnTrue {
+						succ = b.Succs[0]
+					}
+					if retWrapsOnBlock(succ, "ErrPrivilegeError") {
+						ok = true
+					}
 				}
 			}
 		}
